@@ -161,11 +161,7 @@ def materialise(case, base):
 
 
 def entry_kind(case):
-    for d in case['dirs']:
-        for path, f in d:
-            if path == case['entry']:
-                return f['kind']
-    return 'markup'
+    return kind_of_file(case, case['entry'])
 
 
 class Budget(BaseException):
@@ -220,13 +216,27 @@ def exc_name(e):
     return 'Other:%s' % type(e).__name__
 
 
+def requests(case):
+    """[(entry, data)]: the case's entry first, then the optional further requests answered by
+    the same loader"""
+    return [(case['entry'], case['data'])] + [(e, d) for e, d in case.get('then', [])]
+
+
+def kind_of_file(case, name):
+    f = find_file(case, name)
+    return f['kind'] if f else 'markup'
+
+
 def render_real(case, dirs, auto_reload):
-    """outcome of loading the entry through a fresh TemplateLoader(dirs, auto_reload=…) and
-    rendering it with the case's data: ['ok', events] | ['err', class name] | ['skip', 'budget']"""
+    """outcomes of answering the case's requests one after the other through one fresh
+    TemplateLoader(dirs, auto_reload=…): a list of ['ok', events] | ['err', class name] | ['skip', 'budget']"""
     from genshi.template import TemplateLoader, NewTextTemplate, MarkupTemplate
+
+    from genshi.template.base import Context
 
     class CountingLoader(TemplateLoader):
         loads = 0
+        ctxt = None
 
         def load(self, *a, **kw):
             self.loads += 1
@@ -234,24 +244,51 @@ def render_real(case, dirs, auto_reload):
                 raise Budget()
             return TemplateLoader.load(self, *a, **kw)
 
+    class BudgetList(list):
+        # every START/END event is tested against every registered match template: an endless
+        # recursion that registers templates on the way gets very slow long before it ends
+        tests = 0
+
+        def append(self, x):
+            if len(self) >= MATCH_BUDGET:
+                raise Budget()
+            list.append(self, x)
+
+        def __iter__(self):
+            # _match walks the list once per START/END event it sees, at every nesting level:
+            # match templates whose bodies contain matchable elements multiply that
+            self.tests += 1
+            if self.tests > MATCH_TEST_BUDGET:
+                raise Budget()
+            return list.__iter__(self)
+
     loader = CountingLoader(list(dirs), auto_reload=auto_reload, max_cache_size=200)
-    cls = NewTextTemplate if entry_kind(case) == 'text' else MarkupTemplate
     old = sys.getrecursionlimit()
     sys.setrecursionlimit(RECURSION_LIMIT)
+    outs = []
     try:
-        try:
-            tmpl = loader.load(case['entry'], cls=cls)
-            stream = tmpl.generate(**case['data'])
-            return ['ok', canon_events(stream)]
-        except Budget:
-            return ['skip', 'budget']
-        except Exception as e:  # noqa
-            return ['err', exc_name(e)]
+        for entry, data in requests(case):
+            cls = NewTextTemplate if kind_of_file(case, entry) == 'text' else MarkupTemplate
+            loader.loads = 0
+            try:
+                loader.ctxt = None
+                tmpl = loader.load(entry, cls=cls)
+                loader.ctxt = Context(**data)
+                loader.ctxt._match_templates = BudgetList()
+                stream = tmpl.generate(loader.ctxt)
+                outs.append(['ok', canon_events(stream)])
+            except Budget:
+                outs.append(['skip', 'budget'])
+            except Exception as e:  # noqa
+                outs.append(['err', exc_name(e)])
     finally:
         sys.setrecursionlimit(old)
+    return outs
 
 
 LOAD_BUDGET = 2500
+MATCH_BUDGET = 60
+MATCH_TEST_BUDGET = 20000
 RECURSION_LIMIT = 420
 
 
@@ -326,7 +363,8 @@ def run_real(case, base):
     os.makedirs(base, exist_ok=True)
     try:
         dirs = materialise(case, base)
-        return {'inline': render_real(case, dirs, False), 'runtime': render_real(case, dirs, True),
+        a, b = render_real(case, dirs, False), render_real(case, dirs, True)
+        return {'inline': a[0], 'runtime': b[0], 'inline_then': a[1:], 'runtime_then': b[1:],
                 'kept': kept_static_real(case, dirs)}
     finally:
         shutil.rmtree(base, ignore_errors=True)
@@ -551,7 +589,7 @@ def _value_ok(v):
 def valid_case(case):
     """well-shaped: what the generators can produce, modulo sizes"""
     try:
-        if not isinstance(case, dict) or set(case) != {'dirs', 'entry', 'data'}:
+        if not isinstance(case, dict) or not ({'dirs', 'entry', 'data'} <= set(case) <= {'dirs', 'entry', 'data', 'then'}):
             return False
         dirs, entry, data = case['dirs'], case['entry'], case['data']
         if not isinstance(dirs, list) or not dirs or not isinstance(data, dict) or not isinstance(entry, str):
@@ -588,8 +626,20 @@ def valid_case(case):
                         return False
         if not seen_entry:
             return False
-        for k, v in data.items():
-            if not isinstance(k, str) or not _IDENT.match(k) or not _value_ok(v):
+        datas = [data]
+        if 'then' in case:
+            if not isinstance(case['then'], list) or not case['then']:
+                return False
+            for q in case['then']:
+                if (not isinstance(q, list) or len(q) != 2 or not isinstance(q[0], str) or not isinstance(q[1], dict)
+                        or find_file(case, q[0]) is None):
+                    return False
+                datas.append(q[1])
+        for dd in datas:
+            for k, v in dd.items():
+                if not isinstance(k, str) or not _IDENT.match(k) or not _value_ok(v):
+                    return False
+            if names.get('macro', set()) & set(dd):
                 return False
         # macro names are disjoint from data and loop-variable names
         if names.get('macro', set()) & (names.get('var', set()) | set(data)):
@@ -782,7 +832,9 @@ class Spec(object):
                 raise ValueError(k)
 
 
-def spec_render(case):
+def spec_render(case, entry=None, data=None):
+    if entry is not None:
+        case = {'dirs': case['dirs'], 'entry': entry, 'data': data}
     f = find_file(case, case['entry'])
     if f is None:
         return ['err', 'TemplateNotFound']
@@ -884,7 +936,19 @@ class Gen(object):
                 first = dirs[0]
                 second = [[moved, {'kind': kind_of(moved), 'body': self.shadow_body(moved)}]]
             dirs = [first, second]
-        return {'dirs': dirs, 'entry': names[0], 'data': self.data}
+        case = {'dirs': dirs, 'entry': names[0], 'data': self.data}
+        if rng.random() < 0.3 and len(names) > 1:
+            # further requests through the same loader: other entries (their templates may already
+            # have been prepared inside the first one), other data
+            then = []
+            for _ in range(rng.randrange(1, 3)):
+                d2 = dict(self.data)
+                d2['s0'] = rng.choice(['', 'v', 'w&'])
+                d2['t0'] = self.tree(rng.randrange(0, 3))
+                d2['l0'] = [rng.choice(['i', 'j', 'k<']) for _ in range(rng.randrange(0, 3))]
+                then.append([rng.choice(names), d2])
+            case['then'] = then
+        return case
 
     def shadow_body(self, nm):
         if kind_of(nm) == 'markup':
